@@ -786,7 +786,10 @@ impl RADAU {
                 }
 
                 // Sophisticated step size control
-                if (x + hnew / quot1 - xend) * posneg >= 0.0 {
+                // (the 1.0001 stretch, as in the test before the first step, keeps an exactly
+                // dividing max_step from leaving a closing step of a few ulps that would then be
+                // refused as too small)
+                if (x + 1.0001 * hnew / quot1 - xend) * posneg >= 0.0 {
                     h = xend - x;
                     last = true;
                 } else {
